@@ -74,6 +74,13 @@ Theorem C11_ring_in_range : forall l, wf_loc l -> exists out, ring_readout l = O
 Proof. exact C11_ring_in_range_proof. Qed.
 Print Assumptions C11_ring_in_range.
 
+(* a ring whose byte size does not fit (last_ops_length >= 2^60, in particular every length for which
+   last_ops_length * 8 wraps) is refused by calloc before any op runs: the call raises, for every allocator *)
+Theorem C11_huge_ring_refused : forall ev al ov wd lol ip n s, wf s -> (1152921504606846976 <= lol)%Z ->
+  exists e s', api_run ev al ov wd lol ip n s = Ok (Raise e, s').
+Proof. exact C11_huge_ring_refused_proof. Qed.
+Print Assumptions C11_huge_ring_refused.
+
 Theorem C11_ring_allocated : forall ip len, ip < U64 -> 0 < len -> wf_loc (init_locals ip (Some (anew len 0)) len).
 Proof. exact C11_ring_allocated_proof. Qed.
 Print Assumptions C11_ring_allocated.
